@@ -223,8 +223,19 @@ def iteration(index, rep):
     # run_optimizer_for_country hands back percent/100 in slot 0
     rofc = index.func(RMNT, "ScenarioRunnerNoTrade.run_optimizer_for_country")
     rets = [r for r in walk_no_nested(rofc) if isinstance(r, ast.Return)]
-    ok = bool(rets) and all(isinstance(r.value, ast.Tuple) and norm_src(r.value.elts[0]).replace(" ", "") in
-                            ("percent_people_fed/100", "percent_people_fed/100.0", "percent_people_fed*0.01") for r in rets)
+    from .core import Inliner as _Inl
+    inl_r = _Inl(rofc)
+
+    def slot0_ok(r):
+        if not (isinstance(r.value, ast.Tuple) and r.value.elts):
+            return False
+        alts = inl_r.alternatives(r.value.elts[0]) or []
+        # every way the value can be defined: the interpreted results' percent fed (or NaN after a failed optimisation), divided by 100
+        return bool(alts) and all(_re.fullmatch(r"(.+\.run_and_analyze_scenario\(.*\)\.percent_people_fed|\w+\.percent_people_fed|np\.nan) ?(/ ?100(\.0)?|\* ?0\.01)", a_, _re.S)
+                                   for a_ in alts)
+
+    import re as _re
+    ok = bool(rets) and all(slot0_ok(r) for r in rets)
     rep.check(ok, rule, "ratio:percent/100", "run_optimizer_for_country does not return percent_people_fed / 100 in slot 0", loc=loc(RMNT, rofc))
 
 
